@@ -38,37 +38,50 @@ else:
     run("git -C %s checkout -q --detach %s" % (WT, head))
 env = dict(os.environ, CARGO_TARGET_DIR=WT + "/target", CARGO_NET_OFFLINE="true")
 
-for sid in sys.argv[1:]:
+phase = "both"
+args = sys.argv[1:]
+if args and args[0] in ("--confirm", "--check"):
+    phase = args[0][2:]
+    args = args[1:]
+for sid in args:
     d = "/verif/seeded/%s" % sid
     pid = sid.split("-")[0]
     mp = d + "/meta.json"
     meta = json.load(open(mp)) if os.path.exists(mp) else {"id": sid, "property": pid}
     rc, o = run("git -C /repo status --porcelain")
-    if o.strip():
+    if o.strip() and phase != "confirm":
         print(sid, "SKIPPED: /repo is not clean")
         continue
     rec = {"head": head}
+    if phase == "check":
+        rec = meta.get("head_eval", {})
+        if rec.get("head") != head or "confirmed" not in rec:
+            print(sid, "SKIPPED: no confirmation on this HEAD")
+            continue
     demo_src = open(d + "/demo.rs").read()
-    feat = " --features json" if ("json" in demo_src) else ""
-    restore(WT)
-    os.makedirs(WT + "/interpreter/tests", exist_ok=True)
-    shutil.copy(d + "/demo.rs", WT + "/interpreter/tests/seed_demo.rs")
-    rc, o = run("cargo test --offline -p cel-interpreter%s --test seed_demo 2>&1 | tail -15" % feat, cwd=WT, env=env)
-    rec["demo_passes_on_clean_head"] = ("test result: ok" in o and "FAILED" not in o)
-    os.remove(WT + "/interpreter/tests/seed_demo.rs")
-    how, o = apply(WT, d + "/patch.diff")
-    rec["applies"] = how
-    if how is None:
-        rec["note"] = "patch does not apply on HEAD: " + o[-300:]
-    else:
-        rc, o = run("cargo test --workspace --no-fail-fast --offline 2>&1 | grep -E '^test result|FAILED|^error' ", cwd=WT, env=env)
-        rec["suite_green_with_change"] = ("FAILED" not in o and "error" not in o and "test result: ok" in o)
+    if phase == "check":
+        demo_src = None
+    if phase != "check":
+        feat = " --features json" if ("json" in demo_src) else ""
+        restore(WT)
+        os.makedirs(WT + "/interpreter/tests", exist_ok=True)
         shutil.copy(d + "/demo.rs", WT + "/interpreter/tests/seed_demo.rs")
-        rc, o = run("cargo test --offline -p cel-interpreter%s --test seed_demo 2>&1 | tail -25" % feat, cwd=WT, env=env)
-        rec["demo_fails_with_change"] = ("FAILED" in o or "panicked" in o)
-        rec["confirmed"] = bool(rec["demo_passes_on_clean_head"] and rec["suite_green_with_change"] and rec["demo_fails_with_change"])
+        rc, o = run("cargo test --offline -p cel-interpreter%s --test seed_demo 2>&1 | tail -15" % feat, cwd=WT, env=env)
+        rec["demo_passes_on_clean_head"] = ("test result: ok" in o and "FAILED" not in o)
+        os.remove(WT + "/interpreter/tests/seed_demo.rs")
+        how, o = apply(WT, d + "/patch.diff")
+        rec["applies"] = how
+        if how is None:
+            rec["note"] = "patch does not apply on HEAD: " + o[-300:]
+        else:
+            rc, o = run("cargo test --workspace --no-fail-fast --offline 2>&1 | grep -E '^test result|FAILED|^error' ", cwd=WT, env=env)
+            rec["suite_green_with_change"] = ("FAILED" not in o and "error" not in o and "test result: ok" in o)
+            shutil.copy(d + "/demo.rs", WT + "/interpreter/tests/seed_demo.rs")
+            rc, o = run("cargo test --offline -p cel-interpreter%s --test seed_demo 2>&1 | tail -25" % feat, cwd=WT, env=env)
+            rec["demo_fails_with_change"] = ("FAILED" in o or "panicked" in o)
+            rec["confirmed"] = bool(rec["demo_passes_on_clean_head"] and rec["suite_green_with_change"] and rec["demo_fails_with_change"])
     restore(WT)
-    if rec.get("confirmed"):
+    if rec.get("confirmed") and phase != "confirm":
         how, o = apply("/repo", d + "/patch.diff")
         if how is None:
             rec["check"] = {"applied": False}
